@@ -8,8 +8,9 @@
 EXTENDS Kp
 
 \* ---- items -----------------------------------------------------------------
-Coord(rep, c, form, tail) == [t |-> "c", rep |-> rep, cols |-> c, form |-> form, tail |-> tail]
-Deco(kind) == [t |-> kind, rep |-> "one", cols |-> 0, form |-> "dec", tail |-> FALSE]
+CoordF(rep, c, form, tail, fail) == [t |-> "c", rep |-> rep, cols |-> c, form |-> form, tail |-> tail, fail |-> fail]
+Coord(rep, c, form, tail) == CoordF(rep, c, form, tail, "none")
+Deco(kind) == [t |-> kind, rep |-> "one", cols |-> 0, form |-> "dec", tail |-> FALSE, fail |-> "none"]
 DecoKinds == <<"blank", "comment", "ws", "icomment">>
 
 \* ---- sizes: k full batches and a remainder of 0, 1 or B-1 -----------------
@@ -150,8 +151,40 @@ FamET == {E1(si, bx, si + bx) : si \in 1..NS, bx \in 1..NBad}
          \cup {E2(x[1], x[2], x[3]) : x \in {y \in (1..NS) \X (1..3) \X (1..4) : y[3] <= y[2] + 1}}
          \cup {E3(bx) : bx \in 1..NBad}
 
-ShapesQ == FamAQ \cup FamBQ \cup FamCQ \cup FamDQ \cup FamEQ
-ShapesT == FamAT \cup FamBT \cup FamCT \cup FamDT \cup FamET
+\* ---- family F: coordinate lines on which the library fails -----------------------
+\* (the operation is valid; some tuples lie outside its domain in the direction applied
+\* first, the library returns NaN for them and counts fewer successes than tuples).
+\* Failing lines at the first / middle / last position of a batch and in the final
+\* partial batch, one or several per batch, forward, --inv and --roundtrip.
+FailPats(rep) == IF rep = "one" THEN <<"all">> ELSE <<"first", "mid", "last", "some">>
+NPats(si, idx) == Len(FailPats(Reps(si)[idx]))
+FCoords(si, F) == [idx \in 1..M(si) |-> CoordF(Reps(si)[idx], 2 + (idx % 3), "dec", FALSE, F[idx])]
+Modes == <<[inv |-> FALSE, rt |-> FALSE], [inv |-> TRUE, rt |-> FALSE],
+           [inv |-> FALSE, rt |-> TRUE], [inv |-> TRUE, rt |-> TRUE]>>
+FOpt(mx, x) == Opt(Modes[mx].inv, Modes[mx].rt, x % 2 = 1, (x \div 2) % 2 = 1, Decs[(x % 3) + 1], (x % 4) + 1)
+\* operations with a domain limit: 5 fails in both directions, 6 only in the inverse one
+FOpx(mx, x) == IF Modes[mx].inv /\ x % 2 = 0 THEN 6 ELSE 5
+FShape(si, F, mx, x) == Shape("F", OneFile(Weave(FCoords(si, F), NoDeco(M(si))), x), "ok", FOpx(mx, x), FOpt(mx, x))
+\* one item with failing lines
+F1(si, idx, px, mx) == FShape(si, [i \in 1..M(si) |-> IF i = idx THEN FailPats(Reps(si)[i])[px] ELSE "none"], mx, si + idx + px)
+\* two items
+F2(si, i1, i2, mx) == FShape(si, [i \in 1..M(si) |-> IF i = i1 THEN FailPats(Reps(si)[i])[1]
+                                                     ELSE IF i = i2 THEN FailPats(Reps(si)[i])[NPats(si, i)] ELSE "none"],
+                             mx, si + i1 + 3 * i2)
+\* every line
+F3(si, mx) == FShape(si, [i \in 1..M(si) |-> "all"], mx, si + mx)
+FIdx == {y \in (2..NS) \X (1..8) \X (1..4) : y[2] <= M(y[1]) /\ y[3] <= NPats(y[1], y[2])}
+FPairs == {y \in (2..NS) \X (1..8) \X (1..8) : y[2] < y[3] /\ y[3] <= M(y[1])}
+FamFQ == {F1(x[1], x[2], x[3], ((x[1] + x[2] + x[3]) % 2) + 1) : x \in FIdx}
+         \cup {F1(x[1], x[2], 1, 3 + ((x[1] + x[2]) % 2)) : x \in {y \in FIdx : y[3] = 1}}
+         \cup {F2(si, 1, M(si), (si % 2) + 1) : si \in 3..NS}
+         \cup {F3(si, (si % 2) + 1) : si \in 2..NS}
+FamFT == {F1(x[1], x[2], x[3], mx) : x \in FIdx, mx \in 1..4}
+         \cup {F2(x[1], x[2], x[3], mx) : x \in FPairs, mx \in 1..3}
+         \cup {F3(si, mx) : si \in 2..NS, mx \in 1..4}
+
+ShapesQ == FamAQ \cup FamBQ \cup FamCQ \cup FamDQ \cup FamEQ \cup FamFQ
+ShapesT == FamAT \cup FamBT \cup FamCT \cup FamDT \cup FamET \cup FamFT
 
 \* the sexagesimal notations with their values, for the binding
 ASSUME PrintT(<<"SEXA", ToJson([tab |-> SexaTable])>>)
